@@ -627,6 +627,11 @@ class ParsedSelection(_VCF):
                         if tier == "quick" and lazy and (buf != "VCFBuffer" or sel not in ([2, 0, 1], [0, 0, 2])):
                             continue
                         out.append(dict(recs=recs, buffer=buf, crlf=False, prior=None, select=sel, touch=touch, lazy=lazy))
+        # a sites-only file (INFO is the last column) whose LAST record has a one-character INFO: the text of that field ends the data
+        recs2 = [R(1, 1, 1, "dp", 1, (1, 1)), R(2, 2, 1, "dp", 2, None), R(1, 1, 2, "only_x", 1, None)]
+        for sel in ([2, 0, 1], [2, 1, 0], [0, 2, 1]):
+            for lazy in (False, True):
+                out.append(dict(recs=recs2, buffer="VCFBuffer", crlf=False, prior=None, select=sel, touch=[], lazy=lazy, no_samples=True))
         return out
 
 
